@@ -69,7 +69,7 @@ NOTES = {
                 "state; lifted to all histories from a zeroed buffer by induction. The abstract steps are shown to be read-your-writes (zero-extended/truncated after resize), to change at most the one "
                 "addressed entry or append one, to keep insertion order and repetition numbers, and re-opening the bytes (one shared check for the three views) reads the abstract list back at true offsets.",
         "design_ref": "§5 C01",
-        "note": TB + "that TlvStateBorrowed/Mut/Owned share check_data is a fact about the source checked by the stream (all three are opened and compared), not by proof.",
+        "note": TB + "that TlvStateBorrowed/Mut/Owned share check_data is a fact about the source checked by the stream (all three are opened and compared), not by proof. One history in three runs 2-4 consecutive mutations on ONE open handle (multi); a second stream (C15's account histories) covers the account-level rewrite realloc_and_pack_* with repetition numbers.",
         "technique": "Lean 4 refinement to an abstract entry list + induction over operation histories (kernel-checked) + differential correspondence on raw buffers with shadow-list oracle",
     },
     "C03": {
@@ -86,7 +86,7 @@ NOTES = {
                 "changes no byte outside the entry's value range; on every buffer that opens, alloc, init_value, alloc_and_pack and realloc with a genuine tag never panic (canonical or not), and writes through the "
                 "mutable views and var-len packs never panic on any byte string at all.",
         "design_ref": "§5 C04",
-        "note": TB + "after a *successful* operation on a non-canonical buffer (garbage behind the terminator) nothing is claimed, as in the property.",
+        "note": TB + "after a *successful* operation on a non-canonical buffer (garbage behind the terminator) nothing is claimed, as in the property. The length-not-representable branch with enough room needs a buffer of more than 4 GiB: the bigalloc / bigrealloc cases run it on lazily mapped zero pages, and the model's answer is the one C04_unrepresentable_length / C04_unrepresentable_resize prove for every buffer.",
         "technique": "Lean 4 theorem over all byte strings (kernel-checked) + differential correspondence injecting each failing operation at every reached state",
     },
     "C02": {
@@ -112,7 +112,7 @@ NOTES = {
                 "(buffer - header)/element size (0 and an empty data region for zero-sized elements), an aligned data region and every visible element inside the buffer; short, sloppy, misaligned or "
                 "over-long buffers are rejected; read-only and mutable opening are the same function of the bytes. The prefix-to-usize conversion is the code's (saturating after the fix).",
         "design_ref": "§5 C10",
-        "note": TB + "bytemuck's try_from_bytes / try_cast_slice rules are transcribed into the model (castSlice) and validated by the stream; memory safety of the unsafe casts inside bytemuck is not modelled.",
+        "note": TB + "bytemuck's try_from_bytes / try_cast_slice rules are transcribed into the model (castSlice) and validated by the stream; memory safety of the unsafe casts inside bytemuck is not modelled. The streams use prefix widths 1, 2, 3, 4, 6, 8 and 16 bytes (the four Pod integers the property names, the primitives u8 and u16, and user-defined 24- and 48-bit prefixes), element types of size 0..35 and alignment 1..16, and every start offset 0..15.",
         "technique": "Lean 4 theorem (all buffers/addresses/type parameters, kernel-checked) + differential correspondence over 32 monomorphisations x 16 alignments",
     },
     "C11": {
@@ -146,7 +146,7 @@ NOTES = {
                 "bool read/write, usize conversion succeeds iff the value fits and round-trips, single casts succeed iff length = k, slice casts iff length % k = 0 and alias the same bytes. "
                 "Equality with Borsh/Serde/Wincode encoders of the primitive is established by the exhaustive (u16, i16, bool) and sampled correspondence stream, not by proof.",
         "design_ref": "§5 C13",
-        "note": TB + "third-party encoders (borsh, serde_json, wincode) and bytemuck's cast rules are modelled, validated by the stream; feature combinations are checked by cargo check, not modelled.",
+        "note": TB + "third-party encoders (borsh, serde_json, bincode, wincode) and bytemuck's cast rules are modelled, validated by the stream; feature combinations are checked by cargo check, not modelled. Decoders (slice, one-byte-at-a-time reader, JSON, bincode) are exercised but are outside the property's wording: a difference is printed as a NOTE line and does not fail the check.",
         "technique": "Lean 4 theorem (unbounded width/value, kernel-checked) + exhaustive/sampled differential correspondence + feature-matrix build",
     },
     "C14": {
